@@ -286,6 +286,11 @@ theorem unbound_info_refusals {I : Type} (n : ℕ) (form : R → Form R)
   | nil => exact absurd rfl h
   | cons a l => rfl
 
+/-- the two documented method names select the two loops -/
+theorem method_literals :
+    Method.ofString "forward_euler" = some .forward ∧ Method.ofString "backward_euler" = some .backward := by
+  decide
+
 /-- non-vacuity: a 1-D heat-type form on the non-uniform grid `0, 1/2, 2`, both methods -/
 def demoForm (t : ℚ) : Form ℚ := ⟨fun _ _ => -1 - t, fun _ => t, fun _ => 4⟩
 
